@@ -513,7 +513,87 @@ class SArr:
             ii = [z3.If(t < 0, t + _dimt(d), t) for t, d in zip(ii, src.shape)]
             return src.get(tuple(ii) + tuple(idx[ni:]))
 
-        return SArr(tuple(ishape) + tuple(src.shape[na:]), self.dtype, get)
+        return SArr.base_array(tuple(ishape) + tuple(src.shape[na:]), self.dtype, get)
+
+    def _fancy_set(self, key, value):
+        """data[iy, ix, <slices / ints>] = value with integer index arrays of one common CONCRETE shape on the leading axes.
+        numpy semantics: positions are assigned in order, so for repeated targets the last one wins."""
+        import itertools
+        arrs = []
+        for k in key:
+            if isinstance(k, SArr):
+                if k.dtype.kind not in "iu":
+                    raise Unsupported("boolean / non-integer fancy index in assignment")
+                arrs.append(k.frozen())
+            else:
+                break
+        rest = key[len(arrs):]
+        if any(isinstance(k, SArr) or k is None for k in rest):
+            raise Unsupported("fancy index arrays after a slice / newaxis in assignment")
+        ishape = arrs[0].shape
+        for a in arrs[1:]:
+            if tuple(a.shape) != tuple(ishape):
+                raise Unsupported("fancy index arrays of different shapes in assignment")
+        if not all(_dim_int(d) for d in ishape):
+            raise Unsupported("fancy assignment with index arrays of symbolic shape")
+        positions = list(itertools.product(*[range(int(d)) for d in ishape]))
+        if len(positions) > 32:
+            raise Unsupported("fancy assignment with more than 32 index positions")
+        na, ni = len(arrs), len(ishape)
+        trail = []      # per trailing base axis: ('i', k) | ('s', start, step, length)
+        vshape = [int(d) for d in ishape]
+        for j, k in enumerate(rest):
+            d = self.shape[na + j]
+            if isinstance(k, slice):
+                start, step, ln = slice_plan(k, d)
+                trail.append(("s", start, step, ln))
+                vshape.append(ln)
+            else:
+                kk = I(k)
+                dd = _dimt(d)
+                ctx().require(z3.And(kk >= -dd, kk < dd), "index out of bounds")
+                trail.append(("i", z3.If(kk < 0, kk + dd, kk)))
+        f = SArr(tuple(vshape), self.dtype, None)._bc(value)
+        targets = []
+        for p in positions:
+            tt = []
+            for a, d in zip(arrs, self.shape):
+                t = a.get(p)
+                ctx().require(z3.And(t >= -_dimt(d), t < _dimt(d)), "fancy index out of bounds")
+                tt.append(z3.If(t < 0, t + _dimt(d), t))
+            targets.append(tt)
+
+        def tmatch(idx):
+            cs, vi = [], []
+            for j, tr in enumerate(trail):
+                x = idx[na + j]
+                if tr[0] == "i":
+                    cs.append(x == tr[1])
+                else:
+                    _s, st, sp, ln = tr
+                    off = (x - I(st)) if sp > 0 else (I(st) - x)
+                    a = abs(sp)
+                    cs.append(z3.And(off >= 0, off % a == 0, off / a < I(ln)))
+                    vi.append(off / a)
+            return (z3.And(*cs) if cs else z3.BoolVal(True)), vi
+
+        def pmatch(p, idx):
+            return z3.And(*[idx[d] == targets[p][d] for d in range(na)])
+
+        def cond(idx):
+            tm, _vi = tmatch(idx)
+            return z3.And(tm, z3.Or(*[pmatch(p, idx) for p in range(len(positions))]))
+
+        def val(idx):
+            _tm, vi = tmatch(idx)
+            e = f(tuple(z3.IntVal(x) for x in positions[0]) + tuple(vi))
+            for p in range(1, len(positions)):
+                e = elem_ite(pmatch(p, idx), f(tuple(z3.IntVal(x) for x in positions[p]) + tuple(vi)), e)
+            return e
+
+        if self._setreg is None:
+            raise Unsupported("write into a computed array")
+        self._setreg(cond, val)
 
     def __setitem__(self, key, value):
         if not self.flags.writeable:
@@ -528,6 +608,9 @@ class SArr:
             e = lift(value, self.isfloat)
             self._setreg(lambda idx: mask.get(idx), lambda idx: e)
             return
+        nk = self._norm_key(key)
+        if any(isinstance(k, SArr) for k in nk):
+            return self._fancy_set(nk, value)
         view = self[key]
         if not isinstance(view, SArr):
             # scalar position: write through a 1-element slice view
